@@ -38,6 +38,12 @@ overridden), 'PlanarCode~swap' (logical_xs / logical_zs overridden with the X/Z-
 'PlanarCode~stab' (each logical multiplied by a stabilizer); decoders and error models: '~plain'.  A subclass object of the
 same size is a DIFFERENT code / decoder / error model: nothing it computes may be served to (or taken from) the base class.
 
+USER DECODERS THAT KEEP THEIR ANSWERS: decoder variants '~memo' / '~memo_s' / '~memo_lc' build one DecodeResult per (code,
+syndrome, error model, probability) — recovery only / recovery + success / recovery + logical_commutations — and hand that
+very object out again; after every call the objects the decoder keeps are compared deeply with what it built (note
+'RESULT-OBJ': the DecodeResult is the decoder's, app must not write into it); identity checks / caller modifications of the
+results do not apply to these decoders.
+
 PROCESS-GLOBAL STATE: every call is bracketed by `global_state()` (mpmath precision, numpy errstate / print options /
 legacy global RNG, logging levels, os.environ, cwd, decimal context, warnings filters, recursion limit, gc, locale, …); a
 change is reported as a 'GLOBAL:' note (a lead: the caller confirms it by the differential).  So that 'fresh' really
@@ -77,6 +83,32 @@ EMS = {
 
 
 _SUBCLASSES = {}
+MEMO_VARIANTS = ('memo', 'memo_s', 'memo_lc')
+
+
+def is_memo(name):
+    return '~' in name and name.split('~')[1] in MEMO_VARIANTS
+
+
+def result_object_state(d):
+    """deep description of a DecodeResult object as its owner (the decoder that built and keeps it) sees it: every
+    attribute, with the identity and the state (contents / shape / dtype / writeable flag) of its value"""
+    return tuple((nm, id(v), deep_state(v)) for nm, v in sorted(vars(d).items()))
+
+
+def memo_changes(dec):
+    """the DecodeResult objects a memoising user decoder handed out that no longer are what the decoder built"""
+    out = []
+    for k, d in getattr(dec, '_memo', {}).items():
+        was, now = dec._memo_made[k], result_object_state(d)
+        if was != now:
+            a, b = dict((x[0], x[1:]) for x in was), dict((x[0], x[1:]) for x in now)
+            for nm in sorted(set(a) | set(b)):
+                if a.get(nm) != b.get(nm):
+                    f = lambda x: 'absent' if x is None else (x[1][1] if x[1][0] != 'ndarray' else 'array')  # noqa: E731
+                    out.append('{} {} -> {} (syndrome {})'.format(nm, f(a.get(nm)), f(b.get(nm)), k.split('|')[2]))
+                    break
+    return out
 
 
 def base_name(name):
@@ -115,6 +147,35 @@ def subclass(base, variant):
             def logical_zs(self):
                 L, S = np.atleast_2d(np.array(super().logical_zs)), np.atleast_2d(self.stabilizers)
                 return np.array([(r + S[(5 * i + 2) % len(S)]) % 2 for i, r in enumerate(L)])
+    elif variant in MEMO_VARIANTS:
+        class Sub(base):
+            """a USER DECODER that keeps its answers: decoding is a function of (code, syndrome, error model, probability),
+            so it builds ONE DecodeResult per such key and hands that very object out again whenever the key recurs
+            (variant 'memo': recovery only; 'memo_s': recovery + its own success verdict, a function of the syndrome;
+            'memo_lc': recovery + the logical commutations it claims, those of its recovery).  The DecodeResult objects
+            are the decoder's: `_memo_made` records what the decoder put into each of them."""
+
+            def decode(self, code, syndrome, **kwargs):
+                from qecsim import paulitools as pt
+                from qecsim.model import DecodeResult
+                memo = self.__dict__.setdefault('_memo', {})
+                made = self.__dict__.setdefault('_memo_made', {})
+                k = '|'.join((type(code).__name__, repr(code), bits(syndrome), repr(kwargs.get('error_model')),
+                              repr(kwargs.get('error_probability'))))
+                if k not in memo:
+                    rec = super().decode(code, syndrome, **kwargs)
+                    if isinstance(rec, DecodeResult):
+                        rec = rec.recovery
+                    rec = np.array(rec)
+                    if variant == 'memo':
+                        d = DecodeResult(recovery=rec)
+                    elif variant == 'memo_s':
+                        d = DecodeResult(success=bool(np.count_nonzero(syndrome) <= 2), recovery=rec)
+                    else:
+                        d = DecodeResult(logical_commutations=pt.bsp(rec, code.logicals.T), recovery=rec)
+                    memo[k] = d
+                    made[k] = result_object_state(d)
+                return memo[k]
     else:
         raise ValueError('unknown subclass variant ' + variant)
     Sub.__name__ = Sub.__qualname__ = '{}_{}'.format(base.__name__, variant)
@@ -475,7 +536,7 @@ def object_state(o):
 
 
 def execute(spec, pool, limit, watch=None, shared=False):
-    """returns (canonical result, list of notes); notes are tagged ARG / CODE / ALIAS / CACHE-WRITE / REPEAT"""
+    """returns (canonical result, list of notes); notes are tagged ARG / CODE / ALIAS / CACHE-WRITE / REPEAT / RESULT-OBJ"""
     from qecsim import app
     life = spec.get('life') or {}
     code = pool.get(CODES, spec['code'], life.get('code'))
@@ -575,6 +636,15 @@ def execute(spec, pool, limit, watch=None, shared=False):
                 notes.append('ARG: the {} object passed to {} describes itself differently after the call: {} -> {}'
                              .format(nm, op, st, st1))
                 break
+    memo = hasattr(dec, '_memo_made') or is_memo(spec['dec'][0])
+    if memo:
+        ch = memo_changes(dec)
+        if ch:
+            notes.append('RESULT-OBJ: {} modified {} DecodeResult object(s) that the decoder built, handed back from decode '
+                         'and keeps (a user decoder that memoises its answers per syndrome hands the same objects out '
+                         'again in later runs): {}'.format(op, len(ch), '; '.join(ch[:3])))
+            for k, d in dec._memo.items():  # reported once: later calls of the history are judged on their own
+                dec._memo_made[k] = result_object_state(d)
     for c, d in cbefore:
         if code_digest(c) != d:
             notes.append('CODE: stabilizers/logicals of {!r} modified by the call'.format(c))
@@ -598,7 +668,8 @@ def execute(spec, pool, limit, watch=None, shared=False):
                          'candidate cosets are not exactly tied (exact relative gap of the coset probabilities: {}): '
                          '{}'.format(spec['repeats'], len(seen), spec.get('gap'),
                                      ' / '.join('random.seed({}) -> {}'.format(v, r[:200]) for r, v in seen.items())))
-    outs = result_arrays(raw)
+    # (what a memoising user decoder hands back is, by its own design, kept by it: identity checks do not apply there)
+    outs = [] if memo else result_arrays(raw)
     # identity: what the API hands back is the caller's own — never an array handed back before, never cache memory
     for a in outs:
         if any(shares(a, b) for b in pool.handed):
